@@ -58,7 +58,8 @@ Record level := {
   tf_w : Q;               (* tf_adjustment_weight *)
   tf_min_u : Q;           (* tf_minimum_u_value *)
   disable_exact_detect : bool;   (* disable_tf_exact_match_detection *)
-  exact_col : option nat  (* Some c: condition is a plain equality col_l = col_r on the single column c *)
+  exact_cols : list nat   (* the condition is an AND of plain equalities col_l = col_r exactly on these columns
+                             ([] = it is not of that shape; [c] = a plain exact match on the single column c) *)
 }.
 
 (* comparison_vector_value: null levels -1, the others count down from (#non-null - 1). *)
@@ -115,10 +116,12 @@ Definition tf_divisor (min_u : Q) (tfl tfr : option Q) : option Q :=
   if Qeq_bool min_u 0 then divisor_A tfl tfr else divisor_B min_u tfl tfr.
 
 (* ComparisonLevel._u_probability_corresponding_to_exact_match: own u when detection is
-   disabled, otherwise u of the first level that is a plain exact match on the TF column;
+   disabled, otherwise u of the FIRST listed level that is an exact match on exactly ONE column
+   and that column is the TF column (an exact match on several columns, e.g. forename AND
+   surname, is skipped even when it contains the TF column);
    None = the real code raises ValueError while generating SQL. *)
 Definition is_exact_on (c : nat) (l : level) : bool :=
-  match exact_col l with Some c' => Nat.eqb c c' | None => false end.
+  match exact_cols l with [c'] => Nat.eqb c c' | _ => false end.
 Definition u_exact (ls : list level) (l : level) : option Q :=
   if disable_exact_detect l then Some (lu l)
   else match tf_col l with
